@@ -104,7 +104,7 @@ def propagate(data, d, medium_index=None, illum_wavelen=None, cfsp=0,
     # we may have lost coordinate values to floating point precision
     # during fft/ifft
     res.name = 'propagation'
-    res = res.to_dataset().update({'x': data.x, 'y': data.y})[res.name]
+    res = res.assign_coords({'x': data.x.values, 'y': data.y.values})
 
     if contains_zero:
         d = d_old
